@@ -226,7 +226,7 @@ func (r *Run) Finish(cov Coverage, assumptions []string) {
 		cov.Samples = []any{}
 	}
 	// vacuity self-check: many executions but a single outcome means nothing collided.
-	if cov.Outcomes != nil && len(cov.Outcomes) < 2 && cov.Evaluations > 10 {
+	if cov.Outcomes != nil && len(cov.Outcomes) < 2 && cov.Evaluations > 10 && len(r.viols) == 0 && len(r.known) == 0 {
 		Fatalf("%s: vacuous exploration: %d evaluations, %d distinct outcomes", r.ID, cov.Evaluations, len(cov.Outcomes))
 	}
 	covm := map[string]any{}
